@@ -248,6 +248,10 @@ package statedb
 //@   atcall tableIndexTxnNotify.notify@* requires @notify-after-publish GH_stores[addr(db.root)] == old(GH_stores)[addr(db.root)] + 1
 //@   atcall SortableMutexes.Unlock@1 requires @unlock-after-publish GH_stores[addr(db.root)] == old(GH_stores)[addr(db.root)] + 1 && !GH_held[addr(db.mu)]
 //@   atcall close@* requires @init-close-after-publish GH_stores[addr(db.root)] == old(GH_stores)[addr(db.root)] + 1
+//@   atcall Metrics.GraveyardObjectCount@* requires @no-user-callback-under-the-root-mutex !GH_held[addr(db.mu)]
+//@   atcall Metrics.ObjectCount@* requires @no-user-callback-under-the-root-mutex !GH_held[addr(db.mu)]
+//@   atcall Metrics.Revision@* requires @no-user-callback-under-the-root-mutex !GH_held[addr(db.mu)]
+//@   atcall Metrics.WriteTxnDuration@* requires @no-user-callback-under-the-root-mutex !GH_held[addr(db.mu)]
 //@   ensures @closed handle.writeTxnState == nil
 //@   ensures @noop old(handle.writeTxnState) == nil ==> result == nil && unchanged(GH_stores) && unchanged(CH_closed) && unchanged(GH_held) && unchanged(GH_smus)
 //@   ensures @one-store old(handle.writeTxnState) != nil ==> GH_stores[addr(old(handle.writeTxnState.db).root)] == old(GH_stores[addr(handle.writeTxnState.db.root)]) + 1
